@@ -84,11 +84,11 @@ def main():
             only_src = [h for h in r.printed if all(x["a"] != "Edit" or (x["knob"] == "src" and x["p"] == "lib") for x in h)]
             sel = select(only_src, 14 if quick else 40, rng)
         else:
-            sel = select(r.printed, 6 if quick else 50, rng)
+            sel = select(r.printed, 6 if quick else 30, rng)
         rep.extra.setdefault("weakened_model_counterexamples", {})[w] = {"found": len(r.printed), "replayed": len(sel)}
         behaviours += [(h, "cex:" + w) for h in sel]
     g = out["gen"]
-    sel = select(g.printed, 36 if quick else 500, rng, need=lambda h: sum(1 for x in h if x["a"] == "End") >= 2)
+    sel = select(g.printed, 36 if quick else 300, rng, need=lambda h: sum(1 for x in h if x["a"] == "End") >= 2)
     behaviours += [(h, "simulate") for h in sel]
     rep.extra["simulated"] = {"generated": len(g.printed), "replayed": len(sel)}
     cache = common.scratch("vf-c01-oracle-")
@@ -130,12 +130,12 @@ def main():
             only_src = [h for h in r.printed if all(x["a"] != "Edit" or (x["knob"] == "src" and x["p"] == "lib") for x in h)]
             sel = select(only_src, 14 if quick else 40, rng)
         else:
-            sel = select(r.printed, 6 if quick else 50, rng)
+            sel = select(r.printed, 6 if quick else 30, rng)
         rep.extra.setdefault("weakened_model_counterexamples", {})[w] = {"found": len(r.printed), "replayed": len(sel)}
         behaviours += [(h, "cex:" + w) for h in sel]
     num = 100 if quick else 1200
     g = tlc.run("BobBuild", "BobBuild_c01_gen.cfg", workers=1, simulate="num=%d" % num, depth=260, seed=a.seed + 1, timeout=900)
-    sel = select(g.printed, 36 if quick else 500, rng, need=lambda h: sum(1 for x in h if x["a"] == "End") >= 2)
+    sel = select(g.printed, 36 if quick else 300, rng, need=lambda h: sum(1 for x in h if x["a"] == "End") >= 2)
     behaviours += [(h, "simulate") for h in sel]
     rep.extra["simulated"] = {"generated": len(g.printed), "replayed": len(sel)}
     cache = common.scratch("vf-c01-oracle-")
